@@ -359,6 +359,44 @@ fn collision_case(cx: &mut CaseCtx, input: Input) -> CaseResult {
     Ok(())
 }
 
+// ---- the same erroneous input again and again: diagnostics in the same order -------------------------
+
+const REPEAT_TEMPLATES: [&str; 6] = [
+    "module M\ninterface I {\n    [compress(Args)] [oneway] [slicedFormat(Args)] [deprecated] [compress(Return)] [oneway] [slicedFormat(Return)] [deprecated(\"x\")] op()\n}\n",
+    "module M\nstruct S {\n    tag(1) a: int32?\n    tag(1) b: int32?\n    tag(2) c: bool?\n    tag(2) d: bool?\n    tag(3) e: string\n    tag(4) f: string\n}\n",
+    "module M\nenum E : uint8 { A = 1, B = 1, C = 300, D = 2, F = 2, G = 400, H = -1 }\n",
+    "module M\nstruct S { a: Nope1, b: Nope2, c: Sequence<Nope3>, d: Dictionary<Nope4, Nope5> }\ninterface I : Nope6, Nope7 {}\n",
+    "module M\n[bogus1] [bogus2(x)] [cs::fine] [bogus3] [allow(Nope)] [allow(Nada)] struct S {}\n",
+    "module M\nstruct S {}\ncustom S\nenum S { A }\nstruct T {}\ntypealias T = bool\ninterface T {}\n",
+];
+
+/// "Compiling the same inputs with the same options twice gives byte-identical diagnostics": several
+/// errors of one kind on one element, twelve compilations in this process (every hash map instance
+/// of the compiler gets fresh keys) - the recorded list must come out the same every time.
+fn repetition_case(cx: &mut CaseCtx, input: Input) -> CaseResult {
+    let text = REPEAT_TEMPLATES[input.index() as usize % REPEAT_TEMPLATES.len()].to_owned();
+    cx.nontrivial = true;
+    cx.label("several-errors-repeated");
+    cx.sample_with(|| json!({"files": [text]}));
+    let list = |t: &str| -> Vec<(String, String, Option<((usize, usize), (usize, usize), String)>)> {
+        let state = crate::compile::compile_strings(&[t.to_owned()], None);
+        crate::compile::diagnostics_of(state, &Default::default()).into_iter().map(|d| (d.code, d.message, d.span)).collect()
+    };
+    let first = list(&text);
+    check!(first.len() >= 2, "repetition/template-has-too-few-diagnostics", "{first:?}\n{text}");
+    for k in 1..12 {
+        let again = list(&text);
+        check!(
+            again == first,
+            "not-reproducible/diagnostic-order",
+            "compilation {k} of the same text reports\n  {:?}\nthe first one reported\n  {:?}\n--- source ---\n{text}",
+            again.iter().map(|d| (&d.0, &d.1)).collect::<Vec<_>>(),
+            first.iter().map(|d| (&d.0, &d.1)).collect::<Vec<_>>()
+        );
+    }
+    Ok(())
+}
+
 fn binary_case(cx: &mut CaseCtx, input: Input, cfg: &GenCfg) -> CaseResult {
     let (lay_bytes, prog_bytes) = split_input(input.bytes());
     let mut u = Unstructured::new(prog_bytes);
@@ -456,7 +494,7 @@ impl Check for C15 {
         "C15"
     }
     fn rule(&self) -> String {
-        "families: in-process = proptest choice sequences -> multi-file programs (1..4 files, cross-file and cross-module references, aliases, inheritance, re-opened modules; valid, with warnings, or with one injected error) written to real files and compiled with compile_from_options in every permutation of the files and every source/reference assignment: acceptance, per-path observed content and the multiset of warnings (code, level, message, span) must not change, also when one file is listed twice (adjacent or apart); collisions = 34 templates (same definition in two files, definition vs nested module of another file, enumerator / field / operation / parameter / return member vs module of another file, preprocessor symbols defined in one file and tested in another, containment cycles spread over files and used from outside; each with and without a variation) in every order and every source/reference assignment; binary = the same argv (one generator with five arguments; now and then an extra module-less file at a drawn position) twice in fresh processes (byte-identical stdout, stderr, exit status, generator request) plus one random permutation and reference assignment (acceptance and per-path decoded request content). Non-trivial = >= 2 files".into()
+        "families: in-process = proptest choice sequences -> multi-file programs (1..4 files, cross-file and cross-module references, aliases, inheritance, re-opened modules; valid, with warnings, or with one injected error) written to real files and compiled with compile_from_options in every permutation of the files and every source/reference assignment: acceptance, per-path observed content and the multiset of warnings (code, level, message, span) must not change, also when one file is listed twice (adjacent or apart); collisions = 34 templates (same definition in two files, definition vs nested module of another file, enumerator / field / operation / parameter / return member vs module of another file, preprocessor symbols defined in one file and tested in another, containment cycles spread over files and used from outside; each with and without a variation) in every order and every source/reference assignment; repetition = six texts with several errors of one kind on one element, compiled twelve times in one process (and by sixteen processes): the recorded list is the same every time; binary = the same argv (one generator with five arguments; now and then an extra module-less file at a drawn position) twice in fresh processes (byte-identical stdout, stderr, exit status, generator request) plus one random permutation and reference assignment (acceptance and per-path decoded request content). Non-trivial = >= 2 files".into()
     }
     fn assumptions(&self) -> Vec<String> {
         vec!["only the order of files and of reports may change; error diagnostics of rejected programs are not compared across arrangements (only that they are rejected)".into()]
@@ -497,6 +535,7 @@ impl Check for C15 {
         let cfg2 = cfg.clone();
         vec![
             Family::enumerate("collisions", 34, 1, collision_case),
+            Family::enumerate("repetition", 6 * 16, 1, repetition_case),
             Family::bytes("in-process", 700, tier.pick(600, 8_000), move |cx, i| in_process_case(cx, i, &cfg)),
             Family::bytes("binary", 700, tier.pick(60, 1_000), move |cx, i| binary_case(cx, i, &cfg2)),
         ]
